@@ -38,7 +38,7 @@ E == T[l]
 \* ---- projections: logged in full, or named by the digest of one logged before in this behaviour ----
 IsKnown(pd) == \E x \in known : x.pd = pd
 KnownTopo(pd) == (CHOOSE x \in known : x.pd = pd).topo
-HasTopo(k) == E.full[k] = 1 \/ IsKnown(E.pds[k])
+HasTopo(k) == IF E.full[k] = 1 THEN TRUE ELSE IsKnown(E.pds[k])
 TopoAt(k) == IF E.full[k] = 1 THEN E.topos[k] ELSE KnownTopo(E.pds[k])
 \* a projection logged in full under a digest already known must be that projection
 FullConsistent(k) == (E.full[k] = 1 /\ IsKnown(E.pds[k])) => E.topos[k] = KnownTopo(E.pds[k])
@@ -102,6 +102,7 @@ TLoad ==
      /\ \/ LoadFails(E.ret, E.live[s]) /\ Absent(s)
         \/ /\ HasTopo(s) /\ FullConsistent(s)
            /\ LoadYields(E.ret, E.live[s], TopoAt(s), E.filt, flags)
+           /\ \A p \in env : p[1] = "HWLOC_COMPONENTS" => ConfigRespected(TopoAt(s), flags, snap.kind, p[2])
            /\ IF E.pds[s] \in wf THEN TRUE ELSE WellFormed(TopoAt(s))      \* IF, not \/: TLC would evaluate both disjuncts
      \* (2) same key, same outcome
      /\ SeenKey(key) => Deterministic(SeenOut(key), out)
